@@ -295,6 +295,8 @@ struct wire {
 	uint8_t buf[8192];
 	size_t len;
 	bool broken; /* framing lost on this connection */
+	bool cut; /* a write failed after part of a PDU had been accepted: nothing may follow on this connection */
+	bool cut_reported;
 	bool last_send_failed;
 	unsigned long pdus, queries, reports;
 };
